@@ -573,3 +573,143 @@ def file_replay(ctx, inp):
     res = run_file_jobs(ctx.repo, inp.get('order') or TABLE_ORDERS[0], [f])[0]
     print('replay(file): %r -> %r' % (f, res))
     return bool(eval_file(tables, f, res))
+
+
+# ---------------------------------------------------------------------------------------------
+# TOUGH2 data files: the t2data reader's own use of the tables for the initial-conditions style records
+# (INCON 'incon1'/'incon2', INDOM 'indom2', PARAM 'default_incons') with an absent value in ANY position:
+# t2data.write(file) then t2data(file); trailing absent values may be dropped, nothing may move
+# ---------------------------------------------------------------------------------------------
+DATA_WORKER = r'''
+import sys, json, os, tempfile, shutil
+job = json.load(sys.stdin)
+from t2data import t2data
+from t2grids import rocktype, t2block
+tmp = tempfile.mkdtemp(prefix='c02d_')
+out = []
+try:
+    for n, c in enumerate(job['cases']):
+        try:
+            dat = t2data()
+            dat.title = 'c02 file-level case %d' % n
+            rocks = sorted(set(list(c['indom']) + ['rock1']))
+            for r in rocks: dat.grid.add_rocktype(rocktype(r))
+            for b in c['incon']: dat.grid.add_block(t2block(b, 1.0, dat.grid.rocktype['rock1']))
+            for b, (por, vs) in c['incon'].items(): dat.incon[b] = [por, list(vs)]
+            for r, vs in c['indom'].items(): dat.indom[r] = list(vs)
+            dat.parameter['default_incons'] = list(c['default_incons'])
+            fn = os.path.join(tmp, 'case%d%s' % (n, '.dat'))
+            dat.write(fn)
+            back = t2data(fn)
+            out.append({'ok': True, 'incon': {b: [v[0], v[1]] for b, v in back.incon.items()},
+                        'indom': dict(back.indom), 'default_incons': list(back.parameter['default_incons']),
+                        'text': open(fn).read()[-1500:]})
+        except Exception as e:
+            import traceback
+            out.append({'ok': False, 'exc': type(e).__name__, 'msg': str(e)[:300], 'tb': traceback.format_exc()[-600:]})
+finally:
+    shutil.rmtree(tmp, ignore_errors=True)
+json.dump(out, sys.stdout)
+'''
+
+
+def data_cases(rng, thorough):
+    reals = [2.5e5, 101325.0, 35.0, 0.5, 0.0, -1.5, 20.0, 1e-120, 9.9996e+99, 0.99]
+    def variables(n=None):
+        n = n or rng.randint(1, 4)
+        while True:
+            vs = [None if rng.random() < 0.4 else rng.choice(reals) for _ in range(n)]
+            if any(v is not None for v in vs): return vs
+    fixed = [[2.5e5, None, 35.0], [None, 0.5, None, 20.0], [1e5, None, None, 15.0], [None, 20.0], [1e5, 20.0], [3.0, None, 1.0, None]]
+    out = []
+    for k in range(60 if thorough else 16):
+        c = {'incon': {}, 'indom': {}, 'default_incons': fixed[k % len(fixed)] if k < 6 else variables()}
+        for b in range(rng.randint(1, 3)):
+            c['incon']['%3s%2d' % ('abc'[b], k + 1)] = [rng.choice([None, 0.1, 0.25]), fixed[(k + b) % len(fixed)] if k < 6 else variables()]
+        for r in range(rng.randint(0, 2)):
+            c['indom']['rock%d' % (r + 1)] = fixed[(k + r + 3) % len(fixed)] if k < 6 else variables()
+        out.append(c)
+    # default initial conditions over several lines (more than four primary variables)
+    for vs in ([1.0, None, 3.0, 4.0, 5.0, None, 7.0], [1.0, 2.0, 3.0, None, 5.0], [1e5, None, 20.0, None, None, 0.5]):
+        out.append({'incon': {}, 'indom': {}, 'default_incons': vs})
+    return out
+
+
+def line_end_absent(vs):
+    """an absent value at the end of a full, non-final line of four (what t2data.read_parameters trims line by line)"""
+    vs = list(vs)
+    while vs and vs[-1] is None: vs.pop()
+    return any(vs[i + 3] is None for i in range(0, len(vs) - 4, 4))
+
+
+def eval_data(table, c, res):
+    if not res.get('ok'):
+        return [('t2data-file:raises-on-representable-value', {}, 'raised %s: %s' % (res.get('exc'), res.get('msg')), 'file written and read back')]
+    def trimmed(vs):
+        vs = list(vs)
+        while vs and vs[-1] is None: vs.pop()
+        return vs
+    def cmp(section, rec, name, written, got):
+        specs = table[rec][1]
+        want = trimmed(written)
+        ok = isinstance(got, list) and len(got) == len(want) and all(check_field(expected_readback(specs[j % len(specs)], want[j], None), got[j], specs[j % len(specs)]) for j in range(len(want)))
+        if ok: return None
+        if section == 'default_incons' and line_end_absent(written):
+            return ('t2data-file:default_incons:absent-value-at-line-end', {'section': section, 'name': name}, repr(got),
+                    'read-back of %r, position by position' % (written,))
+        interior = any(v is None for v in want)
+        return ('t2data-file:%s:%s' % (section, 'absent-value-displaces-neighbour' if interior else 'value-wrong'), {'section': section, 'name': name},
+                repr(got), 'read-back of %r, position by position (trailing absent values may be dropped)' % (written,))
+    fails = []
+    for b, (por, vs) in c['incon'].items():
+        g = res['incon'].get(b)
+        if g is None: fails.append(('t2data-file:incon:block-missing', {'section': 'incon', 'name': b}, repr(sorted(res['incon'])), 'block %r' % b)); continue
+        f1 = cmp('incon', 'incon2', b, vs, g[1])
+        if f1: fails.append(f1)
+        pspec = table['incon1'][1][3]
+        if not check_field(expected_readback(pspec, por, None), g[0], pspec):
+            fails.append(('t2data-file:incon:porosity-wrong', {'section': 'incon', 'name': b}, repr(g[0]), 'read-back of %r' % (por,)))
+    for r, vs in c['indom'].items():
+        f1 = cmp('indom', 'indom2', r, vs, res['indom'].get(r))
+        if f1: fails.append(f1)
+    f1 = cmp('default_incons', 'default_incons', 'PARAM', c['default_incons'], res['default_incons'])
+    if f1: fails.append(f1)
+    return fails
+
+
+def data_sweep(ctx, thorough=False):
+    import vf
+    table = {t: tab for t, tab, rf in load_tables()}['t2data']
+    cases = data_cases(ctx.rng, thorough)
+    dist = {'t2data_files': len(cases), 'records': 0, 'records_with_interior_absent': 0}
+    try:
+        results = vf.run_impl(DATA_WORKER, {'cases': cases}, timeout=900, repo=ctx.repo)
+    except Exception as e:
+        ctx.failure('t2data-file', 't2data-file:worker-failed', {}, str(e)[-600:], 't2data files written and read')
+        results = []
+    n = 0
+    for c, res in zip(cases, results):
+        for vs in [v[1] for v in c['incon'].values()] + list(c['indom'].values()) + [c['default_incons']]:
+            n += 1; dist['records'] += 1
+            t = list(vs)
+            while t and t[-1] is None: t.pop()
+            if any(v is None for v in t): dist['records_with_interior_absent'] += 1
+        ctx.count(('t2data-file', json_key(c)), nontrivial=True)
+        for key, where, obs, req in eval_data(table, c, res):
+            ctx.failure('t2data-file', key, dict(where, data_case=c), obs, req)
+    ctx.oracle_cases('t2data-file', n, **dist)
+    return n
+
+
+def json_key(c):
+    import json
+    return json.dumps(c, sort_keys=True)
+
+
+def data_replay(ctx, inp):
+    import vf
+    table = {t: tab for t, tab, rf in load_tables()}['t2data']
+    c = inp['data_case']
+    res = vf.run_impl(DATA_WORKER, {'cases': [c]}, timeout=300, repo=ctx.repo)[0]
+    print('replay(t2data file): %r -> %r' % (c, {k: v for k, v in res.items() if k != 'text'}))
+    return bool(eval_data(table, c, res))
